@@ -85,6 +85,8 @@ pub fn fcond(name: &str) -> fn(i64) -> bool {
         "always" => |_| true,
         "lt1000" => |s| s < 1000,
         "lt100" => |s| s < 100,
+        "lt30" => |s| s < 30,
+        "lt10" => |s| s < 10,
         "never" => |_| false,
         _ => panic!("unknown condition {name}"),
     }
